@@ -323,13 +323,30 @@ class Subject:
     pass
 
 
+# inputs that reach a numerical corner random draws reach about once in 700 calls (each found by a seeded search
+# against the defect repaired in c50c624: the restart of the randomised search from a vector whose Schmidt
+# decomposition has fewer terms than the rank it recursed with): (recipe, global numpy seed, effort)
+HARD_CASES = [(1, 2, 1), (51, 5, 1), (192, 1, 1), (205, 1, 1), (243, 5, 1), (277, 1, 0), (329, 0, 1)]
+
+
+def hard_operator(j):
+    rng = np.random.default_rng(j)
+    return np.diag(rng.random(16) * (rng.random(16) < 0.8))
+
+
 def _scaled(v, c):
     return None if v is None else v * c
 
 
-def make_subject(cs, res, tier, stream, like=None, prefer_k2=False, structured_k3=False):
+def make_subject(cs, res, tier, stream, like=None, prefer_k2=False, structured_k3=False, hard=None):
     sub = Subject()
-    x_lib, meta = draw_operator(cs.s(stream), tier, like=like, prefer_k2=prefer_k2, structured_k3=structured_k3)
+    if hard is not None:
+        x_lib = hard_operator(hard[0])
+        meta = {"dims": [4, 4], "kind": "diagonal", "complex": False, "k": 3, "effort": hard[2], "dim_arg": "list", "target": None, "scale": 1.0, "hard_case": list(hard)}
+        sub.first_seed = hard[1]
+        res.probe("hard_case")
+    else:
+        x_lib, meta = draw_operator(cs.s(stream), tier, like=like, prefer_k2=prefer_k2, structured_k3=structured_k3)
     # x_lib is what the library is given (possibly np.matrix / integer-typed / strided); every own reference is
     # computed from a plain floating-point ndarray with the same entries
     x = np.asarray(x_lib)
@@ -414,7 +431,8 @@ def run(cs, tier, run_index):
     quiet()
     res = RunResult()
     sk = _lib()
-    subs = [make_subject(cs, res, tier, "operator", prefer_k2=(run_index % 8 == 7), structured_k3=(run_index % 16 == 11))]
+    hard = HARD_CASES[(run_index // 32) % len(HARD_CASES)] if run_index % 32 == 11 else None
+    subs = [make_subject(cs, res, tier, "operator", prefer_k2=(run_index % 8 == 7), structured_k3=(run_index % 16 == 11), hard=hard)]
     # sometimes a second operator of the same local dimensions and the same k lives in the same history
     # (whatever the routine keeps between calls under a key that ignores the operator meets another one)
     if cs.s("config").draw(3) == 2 or run_index % 8 == 7:
@@ -439,8 +457,10 @@ def run(cs, tier, run_index):
         x, meta, opn = sub.x, dict({a: b for a, b in sub.meta.items() if not a.startswith("_")}, operator_index=subs.index(sub), operators=len(subs)), sub.opn
         k = sub.meta["k"]
         seed = rs.draw(1 << 32)
-        np.random.seed(seed)
         adv = rs.draw(4)
+        if not sub.outcomes and getattr(sub, "first_seed", None) is not None:
+            seed, adv = sub.first_seed, 0
+        np.random.seed(seed)
         if adv:  # adversary: other code in the process advances the global stream between calls
             np.random.randn(adv * 7)
             res.fault("adversary_global_draws")
